@@ -4,7 +4,8 @@ import vlib
 from props import solverstream as ss
 
 THEOREMS = ["C06_simplify_order_independent"]
-CHECKER = ("tools/census.py vs tools/census_expected.json (hash-container iteration sites); harness solve_cases --repeat run as "
+CHECKER = ("tools/census.py vs tools/census_expected.json (hash-container iteration sites); harness snapshot_cases: provider call order of "
+           "repeated DependencySnapshot captures; harness solve_cases --repeat run as "
            "N separate processes (fresh ahash seeds): solution order, provider call order, conflict graph, graphviz and message "
            "text must be byte-identical across processes and across two solver instances in one process")
 
@@ -77,9 +78,37 @@ def run(res, tier, seed, replay):
                     res.violation(key_, f"two fresh solver instances in one process gave different results ({tag}, process {pi})",
                                   {"case": r["case"], "stream": tag})
                     break
+    # ---- capturing a DependencySnapshot: the order in which the provider is queried must not depend on hash seeds (a
+    # provider that numbers its ids on first use would otherwise hand out other ids, and the snapshot would prefer other
+    # union members)
+    if not replay or json.load(open(replay)).get("replay", {}).get("kind") == "capture_order":
+        bs = os.path.join(vlib.cargo_build("debug", hooks=True, bins=["snapshot_cases"]), "snapshot_cases")
+        if replay:
+            spec = json.load(open(replay))["replay"]["spec"]
+            tmp = os.path.join(vlib.OUT, "c06_capture_spec.json")
+            json.dump(spec, open(tmp, "w"))
+            snaps, _ = vlib.run_harness(bs, ["--replay", tmp])
+        else:
+            snaps, _ = vlib.run_harness(bs, ["--seed", str(seed + 5), "--count", str(300 if tier == "quick" else 6000)])
+        n_union_caps = 0
+        for c in snaps:
+            if c.get("capture") != "ok":
+                continue
+            multi = any(len(x) >= 2 for x in c["spec"]["u"].get("unions", []))
+            n_union_caps += multi
+            res.count(["capture", c["spec"].get("id"), c["spec"]["u"]], multi)
+            if c.get("capture_order_stable") is False:
+                res.violation(f"capture-{c['spec'].get('id')}", "DependencySnapshot::from_provider queried the same deterministic provider in "
+                              "different orders in two captures of one process (the order follows the iteration of a hash set): for a "
+                              "provider that numbers its ids on first use the snapshot, and the solution found through it, depend on "
+                              "the hash seed", {"kind": "capture_order", "spec": c["spec"], "two_orders": c.get("capture_order")})
+        res.extra["snapshot_captures_compared_4_times"] = len(snaps)
+        res.extra["of_which_with_a_union_of_two_or_more_members"] = n_union_caps
     res.rule = (f"every case is solved in {nproc} separate debug processes and 2 release processes (per-process ahash seeds), twice per "
                 "process with fresh solvers; solution ORDER, conflict graph, graphviz (plain and simplified) and message text are "
-                "compared exactly; non-trivial = Unsolvable (message compared) or solution of >= 3 solvables")
+                "compared exactly; non-trivial = Unsolvable (message compared) or solution of >= 3 solvables; plus seeded universes captured with "
+                "DependencySnapshot::from_provider four times each: the sequence of provider calls must be the same (non-trivial: a union "
+                "with >= 2 members)")
     res.extra.update({"processes": nproc_total, "census_sites": len(now), "census_sites_gone": gone})
     return res.finish(CHECKER, vlib.TRUSTED_BASE,
                       ["the provider is deterministic and non-yielding (sync) or self-waking (yield)",
